@@ -395,6 +395,7 @@ func (e *Engine) step(st *State, ti int) (res stepRes) {
 	if e.TraceExec {
 		fmt.Fprintf(e.Log, "  [t%d %s] %s: %s\n", th.ID, fr.Fn.Name(), e.pos(instr), instr)
 	}
+	e.curThread, e.curInstr = th.ID, instr
 	return e.exec(st, th, fr, instr)
 }
 
@@ -474,9 +475,19 @@ func (e *Engine) forkVals(st *State, t *term.Term, vals []*term.Term) stepRes {
 func (e *Engine) unwindStep(st *State, th *Thread) stepRes {
 	fr := st.topW(th)
 	if th.Panic != nil && th.Panic.Recovered {
-		// a deferred call recovered: the function returns normally
+		// a deferred call recovered: the remaining deferred calls run, then the function returns normally
 		th.Panic = nil
+		fr.Recovered = true
+	}
+	if fr.Recovered && th.Panic != nil {
+		fr.Recovered = false // a later deferred call panicked again
+	}
+	if fr.Recovered {
+		if len(fr.Defers) > 0 {
+			return e.runTopDefer(st, th, fr)
+		}
 		fr.Unwind = false
+		fr.Recovered = false
 		if fr.Fn.Recover != nil {
 			fr.Prev = fr.Block
 			fr.Block = fr.Fn.Recover.Index
@@ -1112,7 +1123,7 @@ func (e *Engine) spawn(st *State, th *Thread, fr *Frame, in *ssa.Go) {
 	fn, args := e.resolveCallee(st, fr, in.Common())
 	th.NGo++
 	id := e.internThread(threadKey{th.ID, e.pos(in), th.NGo})
-	nt := &Thread{ID: id, ep: st.ep}
+	nt := &Thread{ID: id, ep: st.ep, BarParent: th.ID, BarBlocks: th.Blocks, BarN: len(th.Open)}
 	st.Threads = append(st.Threads, nt)
 	// the new thread starts with a pseudo frame that performs the call
 	nt.Start = &StartCall{Fn: fn, Args: args}
